@@ -271,11 +271,14 @@ func vhGenOf(v string) int {
 }
 
 func vhPickColls() [3]bool {
-	// databases use one of the two named collections, or both
+	// a database uses one named collection or the default collection (quick); the other named collection or both named
+	// ones in addition (thorough)
 	switch vNondetRange(0, vParam("collchoices", 2)-1) {
 	case 0:
 		return [3]bool{false, true, false}
 	case 1:
+		return [3]bool{true, false, false} // the default collection only
+	case 2:
 		return [3]bool{false, false, true}
 	}
 	return [3]bool{false, true, true}
